@@ -110,11 +110,12 @@ def set_path(v, path, x):
 
 class BbProp(Prop):
     family = "bb"
-    quick_n, thorough_n = 300, 8000
+    quick_n, thorough_n = 1000, 15000
     keep = "RSMGCA"
     strict = None
     stream = True
     statics = True
+    sset = False
     assumptions = ["blackboard values are fresh objects (no aliasing of one object under two keys)",
                    "key names are not attributes of the Client class", "activity-stream records compare objects opaquely",
                    "batch unregistration order is unobservable unless it raises (scenarios that could raise use single "
@@ -126,7 +127,7 @@ class BbProp(Prop):
         for i in range(n):
             mx = 150 if (tier == "thorough" and i % 5 == 0) else 60
             out.append(bb_gen.gen_scenario(rng, "%s_%s_%d" % (self.pid, tier[0], i), strict=self.strict,
-                                           stream=self.stream, statics=self.statics, max_ops=mx))
+                                           stream=self.stream, statics=self.statics, max_ops=mx, sset=self.sset))
         return out
 
     def run_impl(self, s):
@@ -235,6 +236,7 @@ def same_state(prev, o, parts="SMGC"):
 @register
 class C06(BbProp):
     pid = "C06"
+    sset = True
     keep = "RS"
     ops_r = ("setattr", "getattr", "set", "get", "exists", "unset", "dotget", "dotset", "sget", "sexists", "sunset", "sset")
     rule = ("random histories of 2-4 clients (namespaces, remaps onto shared locations, nested names to depth 3, "
@@ -297,6 +299,18 @@ class C06(BbProp):
             key = absname("/", t[1])
             want = "True" if key in S else "False"
             S.pop(key, None)
+        elif op == "sset":
+            key, path = split_name(absname("/", t[1]))
+            if not path:
+                S[key] = t[2]
+                want = "ok"
+            elif key not in S:
+                want = "KeyError"
+            else:
+                ok, new = set_path(val_parse(S[key]), path, val_parse(t[2]))
+                if ok:
+                    S[key] = val_str(new)
+                want = "ok" if ok else "AttributeError"
         elif op in ("unregkey", "unregall", "unreg"):
             # clearing removes the values of locations that lose their last user; everything else stays
             if not same_state_minus(prev, o):
